@@ -40,8 +40,8 @@ k("c08_divide_int_cheap", ["C08"], "complete",
 k("c08_modulo_int_cheap", ["C08"], "complete",
   "% : ZeroModulo iff b == 0, nothing else errs; b=+-1 gives 0 (incl. MIN % -1), sign of the dividend",
   domain=ALLI, inputs=I2, probe="arith:%", functions=["modulo::exec"])
-k("c08_pow_int_small_exponents", ["C08"], "bounded", "a ** e for e in 0..=3 equals the wrapped product",
-  domain="all a in i64", bound="exponent in {0,1,2,3}", inputs=("i64",), probe="arith:**", functions=["pow::exec"])
+k("c08_pow_int_small_exponents", ["C08"], "bounded", "a ** e for e in 0..=2 equals the wrapped product",
+  domain="all a in i64", bound="exponent in {0,1,2}", inputs=("i64",), probe="arith:**", functions=["pow::exec"])
 k("c08_pow_negative_exponent", ["C08"], "bounded", "a ** e errs NegativeExponent for e in {-1,-2,MIN}",
   domain="all a in i64", bound="exponent in {-1,-2,i64::MIN}", inputs=("i64",), probe="arith:**",
   functions=["pow::exec"])
